@@ -69,7 +69,7 @@ class SymCtx:
         self.light = z3.SolverFor(logic) if logic else z3.Solver()
         self.light.set("timeout", min(timeout_ms, 5000))
         self.use_light = True
-        self.fresh = fresh  # one-shot solver per query: z3 then uses nlsat (incremental mode falls back to the weaker SMT core for NRA)
+        self.fresh_solver = fresh  # one-shot solver per query: z3 then uses nlsat (incremental mode falls back to the weaker SMT core for NRA)
         self.pc = []
         self.hyps = []
         self.timeout_ms = timeout_ms
@@ -102,7 +102,7 @@ class SymCtx:
     # -- solver plumbing --------------------------------------------------------
     def _check(self, *extra):
         t0 = time.time()
-        if self.fresh:
+        if self.fresh_solver:
             sv = z3.Solver()
             sv.set("timeout", self.timeout_ms)
             sv.add(*self.pc)
@@ -123,13 +123,13 @@ class SymCtx:
         dt = time.time() - t0
         self.solver_s += dt
         if dt > 2 and os.environ.get("SX_SLOW"):
-            print(f"[slow query {dt:.1f}s -> {r}] extra={[str(e)[:300] for e in extra]} n_assert={len(self.pc) if self.fresh else len(self.solver.assertions())}", file=sys.stderr)
+            print(f"[slow query {dt:.1f}s -> {r}] extra={[str(e)[:300] for e in extra]} n_assert={len(self.pc) if self.fresh_solver else len(self.solver.assertions())}", file=sys.stderr)
         rs = str(r)
         self.nq[rs] += 1
         return rs, m
 
     def add(self, e):
-        if self.fresh:
+        if self.fresh_solver:
             self.pc.append(e)
         else:
             self.solver.add(e)
@@ -143,7 +143,7 @@ class SymCtx:
 
     def add_hyp(self, e):
         """A hypothesis (assumption / axiom): goes to the light solver too."""
-        if self.fresh:
+        if self.fresh_solver:
             self.hyps.append(e)
         else:
             self.light.add(e)
@@ -154,7 +154,7 @@ class SymCtx:
         if not self.use_light:
             return False
         t0 = time.time()
-        if self.fresh:
+        if self.fresh_solver:
             sv = z3.Solver()
             sv.set("timeout", min(self.timeout_ms, 5000))
             sv.add(*self.hyps)
@@ -237,7 +237,7 @@ class SymCtx:
         else:
             raise Infeasible("path condition became unsatisfiable")
         self.trace.append(("b", d))
-        if self.fresh:
+        if self.fresh_solver:
             self.pc.append(e if d else z3.Not(e))
         else:
             self.solver.add(e if d else z3.Not(e))
@@ -272,7 +272,7 @@ class SymCtx:
                 raise RuntimeError("non-deterministic re-execution (concretize)")
         else:
             vals = []
-            if self.fresh:
+            if self.fresh_solver:
                 sv = z3.Solver()
                 sv.set("timeout", self.timeout_ms)
                 sv.add(*self.pc)
@@ -295,7 +295,7 @@ class SymCtx:
                         raise OutOfBound("integer has more than max_enum feasible values")
                     sv.add(term != v)
             finally:
-                if not self.fresh:
+                if not self.fresh_solver:
                     sv.pop()
                 self.solver_s += time.time() - t0
             if not vals:
@@ -318,6 +318,12 @@ class SymCtx:
         self.add_hyp(e)
         if not self.feasible():
             raise Infeasible("assumption infeasible")
+
+    def axiom(self, c):
+        """A true fact about an uninterpreted function (no feasibility check)."""
+        e = _expr(c)
+        if e is not None:
+            self.add_hyp(e)
 
     def valid(self, c):
         e = _expr(c)
@@ -348,8 +354,11 @@ class SymCtx:
         return False
 
     def nonzero(self, t):
+        """True iff t != 0 on this path (forks)."""
         if self.branch(t == 0):
-            raise ZeroDivisionError("symbolic division by zero")
+            self.domain_hits.append("division by zero")
+            return False
+        return True
 
     def cover(self, label):
         self.covers[label] += 1
@@ -410,6 +419,9 @@ class SymCtx:
                 return self.prove(ok, label)
             return self.prove(la == lb, label)
         return self.prove(la == lb, label)
+
+    def prove_le(self, a, b, label):
+        return self.prove(a <= b, label)
 
     def fail(self, label, detail=""):
         """Unconditional violation on this (feasible) path."""
@@ -654,6 +666,9 @@ class ConcCtx:
     def valid(self, c):
         return bool(c)
 
+    def axiom(self, c):
+        pass
+
     def possible(self, c):
         return bool(c)
 
@@ -681,6 +696,14 @@ class ConcCtx:
             ok = a == b
         else:
             ok = abs(a - b) <= self.atol + self.rtol * max(abs(a), abs(b))
+        self.obligations.append((label, "ok" if ok else "FAILED"))
+        if not ok:
+            self.failures.append(dict(label=label, a=a, b=b))
+        return ok
+
+    def prove_le(self, a, b, label):
+        a, b = float(a), float(b)
+        ok = a <= b + self.atol + self.rtol * max(abs(a), abs(b))
         self.obligations.append((label, "ok" if ok else "FAILED"))
         if not ok:
             self.failures.append(dict(label=label, a=a, b=b))
